@@ -5,6 +5,7 @@ import (
 	"fmt"
 	"hash/crc32"
 	"math"
+	"strconv"
 	"strings"
 	"sync"
 	"sync/atomic"
@@ -306,10 +307,15 @@ func veryLongLen(r *core.Rng) int {
 func respell(r *core.Rng, id string) string {
 	f := strings.Split(id, "/")
 	i := r.Intn(len(f))
-	if r.P(0.15) { // many leading zeros (the numeral is still the same number): IDs of 100..300 bytes
-		z := strings.Repeat("0", int(r.Range(17, 120)))
+	if r.P(0.15) { // leading zeros (the numeral is still the same number): 1..40 of them, sometimes up to 120 (IDs of 100..300 bytes)
+		n := r.Range(1, 40)
+		if r.P(0.3) {
+			n = r.Range(41, 120)
+		}
+		z := strings.Repeat("0", int(n))
+		others := r.P(0.3)
 		for k := range f {
-			if k == i || r.P(0.4) {
+			if k == i || (others && r.P(0.5)) {
 				if strings.HasPrefix(f[k], "-") {
 					f[k] = "-" + z + f[k][1:]
 				} else {
@@ -440,4 +446,38 @@ func truncAliasPair(r *core.Rng) (P, c ref.ID) {
 	}
 	c = ref.ID{H: P.H + dh, X: P.X<<uint(dh) + r.I64n(pow2(dh)), Y: P.Y<<uint(dh) + r.I64n(pow2(dh)), V: P.V + d, F: -r.Range(1, pow2(d)-1)}
 	return
+}
+
+// looseFields parses n '/'-separated numerals the way the library's integer parser does (signs and leading zeros
+// accepted): used where the spelling of a result is not prescribed, only the voxel it names.
+func looseFields(s string, n int) ([]int64, bool) {
+	f := strings.Split(s, "/")
+	if len(f) != n {
+		return nil, false
+	}
+	out := make([]int64, n)
+	for i, x := range f {
+		v, err := strconv.ParseInt(x, 10, 64)
+		if err != nil {
+			return nil, false
+		}
+		out[i] = v
+	}
+	return out, true
+}
+
+func looseExt(s string) (ref.ID, bool) {
+	v, ok := looseFields(s, 5)
+	if !ok {
+		return ref.ID{}, false
+	}
+	return ref.ID{H: v[0], X: v[1], Y: v[2], V: v[3], F: v[4]}, true
+}
+
+func looseSpatial(s string) (ref.ID, bool) {
+	v, ok := looseFields(s, 4)
+	if !ok {
+		return ref.ID{}, false
+	}
+	return ref.ID{H: v[0], X: v[2], Y: v[3], V: v[0], F: v[1]}, true
 }
